@@ -7,7 +7,7 @@ EXTENDS Integers, Sequences, TLC, Json
 
 CONSTANTS Limit,       \* Traceback's max_frames (sys.getrecursionlimit() // 8 in production)
           Depths,      \* real traceback depths explored
-          Kinds,       \* exception kinds: "exc0", "exc1", "base", "nested", "unpicklable_arg"
+          Kinds,       \* exception kinds: "exc0", "exc1", "base", "nested", "encerr" (MaybeEncodingError)
           MaxPickles
 
 VARIABLES phase,       \* "none" | "have"
